@@ -190,6 +190,19 @@ fn matrix_leg(g: &Grammar, triples: bool) -> Acc {
         texts.push(format!("{}a{}", "if ".repeat(n), " then b else c".repeat(n)));
         texts.push(format!("{}z", "if a then b else ".repeat(n)).replace("else z", "z"));
     }
+    // many sequential groups (a counter that is not decremented would show) and real nesting
+    for n in [63usize, 64, 65, 70, 130] {
+        texts.push(format!("[{}]", (0..n).map(|i| format!("{{a: x{i}}}")).collect::<Vec<_>>().join(", ")));
+        texts.push(format!("{{{}}}", (0..n).map(|i| format!("k{i}: {{a: i{i}}}")).collect::<Vec<_>>().join(", ")));
+        texts.push((0..n).map(|i| format!("f({{a: i{i}}})")).collect::<Vec<_>>().join(" + "));
+        texts.push((0..n).map(|i| format!("(x{i})")).collect::<Vec<_>>().join(" * "));
+        texts.push((0..n).map(|i| format!("[x{i}].0")).collect::<Vec<_>>().join(" - "));
+        texts.push(format!("{}x{}", "(".repeat(n), ")".repeat(n)));
+        texts.push(format!("{}x{}", "[".repeat(n), "]".repeat(n)));
+        texts.push(format!("{}x{}", "{a: ".repeat(n), "}".repeat(n)));
+        texts.push(format!("{}x{}", "int(".repeat(n), ")".repeat(n)));
+        texts.push(format!("\"{}\" + \"{}\"", "(".repeat(n), "{".repeat(n)));
+    }
     texts.sort();
     texts.dedup();
     texts
